@@ -22,11 +22,37 @@ def _tags_var(m):
   return 'tags'
 
 
-def _pieces_of_tags(e, p):
+def _copy_without_name(fm, local, p):
+  """`local` is a private copy of the tags mapping p (dict(p) / p.copy()) from which only the 'name' entry is removed
+  (local.pop('name', ...)): iterating it is iterating every tag but the name."""
+  if fm is None:
+    return False
+  defs = [s_ for s_ in walk_no_nested(fm.node, include_self=False) if isinstance(s_, ast.Assign) and
+          any(isinstance(t, ast.Name) and t.id == local for t in s_.targets)]
+  if len(defs) != 1:
+    return False
+  v = defs[0].value
+  is_copy = (isinstance(v, ast.Call) and isinstance(v.func, ast.Name) and v.func.id == 'dict' and len(v.args) == 1 and not v.keywords and
+             dotted(v.args[0]) == p) or \
+            (isinstance(v, ast.Call) and isinstance(v.func, ast.Attribute) and v.func.attr == 'copy' and dotted(v.func.value) == p and not v.args)
+  if not is_copy:
+    return False
+  muts = [c for c in walk_no_nested(fm.node, include_self=False) if isinstance(c, ast.Call) and isinstance(c.func, ast.Attribute) and
+          dotted(c.func.value) == local and c.func.attr in ('pop', 'popitem', 'clear', 'update', 'setdefault', '__delitem__', '__setitem__')]
+  subs = [x for x in walk_no_nested(fm.node, include_self=False) if isinstance(x, ast.Subscript) and dotted(x.value) == local and
+          isinstance(x.ctx, (ast.Store, ast.Del))]
+  pops = [c for c in muts if c.func.attr == 'pop' and c.args and isinstance(c.args[0], ast.Constant) and c.args[0].value == 'name']
+  return len(pops) == 1 and len(muts) == 1 and not subs
+
+
+def _pieces_of_tags(e, p, fm=None):
   """(iterates all of tags.items(), excludes name) for a comprehension  [<piece> for tag, value in tags.items() if tag != 'name']"""
   if isinstance(e, (ast.ListComp, ast.GeneratorExp, ast.SetComp)) and len(e.generators) == 1:
     g_ = e.generators[0]
     it = g_.iter
+    if isinstance(it, ast.Call) and isinstance(it.func, ast.Attribute) and it.func.attr == 'items' and isinstance(it.func.value, ast.Name) and \
+       it.func.value.id != p and _copy_without_name(fm, it.func.value.id, p):
+      return not g_.ifs, True
     if isinstance(it, ast.Call) and isinstance(it.func, ast.Attribute) and it.func.attr == 'items' and dotted(it.func.value) == p:
       excl = any(isinstance(c, ast.Compare) and len(c.ops) == 1 and isinstance(c.ops[0], ast.NotEq) and
                  "'name'" in unparse(c).replace('"', "'") for i_ in g_.ifs for c in ast.walk(i_))
@@ -43,7 +69,7 @@ def _sorted_pieces(cx, fm, g, seq, ret, p):
     if isinstance(inner, ast.Name):
       srcs = [x for x in resolve_copies(fm, inner) if isinstance(x, ast.AST)]
       inner = srcs[0] if len(srcs) == 1 else inner
-    full, excl = _pieces_of_tags(inner, p)
+    full, excl = _pieces_of_tags(inner, p, fm)
     if full:
       return True, excl, ''
     return False, False, '`%s` is not built from every entry of the tags' % short(inner)
@@ -127,7 +153,17 @@ def run(check):
       while isinstance(first, ast.BinOp) and isinstance(first.op, ast.Add):
         first = first.left
       ftxt = unparse(first).replace(' ', '').replace('"', "'")
-      if ftxt.startswith("%s.get('name'" % p) or ftxt == "%s['name']" % p:
+      popped = False
+      if isinstance(first, ast.Name):
+        fd = [s_ for s_ in walk_no_nested(fm.node, include_self=False) if isinstance(s_, ast.Assign) and
+              any(isinstance(t, ast.Name) and t.id == first.id for t in s_.targets)]
+        if len(fd) == 1:
+          fv = fd[0].value
+          ftxt = unparse(fv).replace(' ', '').replace('"', "'")
+          if isinstance(fv, ast.Call) and isinstance(fv.func, ast.Attribute) and fv.func.attr == 'pop' and isinstance(fv.func.value, ast.Name) and \
+             fv.args and isinstance(fv.args[0], ast.Constant) and fv.args[0].value == 'name' and _copy_without_name(fm, fv.func.value.id, p):
+            popped = True
+      if popped or ftxt.startswith("%s.get('name'" % p) or ftxt == "%s['name']" % p:
         if excl:
           r_o.ok('format(): name first, excluded from the sorted tags', fm.loc(r))
         else:
